@@ -192,6 +192,7 @@ def with_parameters(tp: AnyType) -> AnyType:
 
 
 def is_union_of(tp: AnyType, of: AnyType) -> bool:
+    tp = no_annotated(tp)
     return tp == of or (is_union(get_origin_or_type2(tp)) and of in get_args2(tp))
 
 
